@@ -11,6 +11,7 @@ import (
 	dbm "github.com/cosmos/cosmos-db"
 	sdk "github.com/cosmos/cosmos-sdk/types"
 	keeperutil "github.com/palomachain/paloma/v2/util/keeper"
+	evmtypes "github.com/palomachain/paloma/v2/x/evm/types"
 	"github.com/palomachain/paloma/v2/zzverif/world"
 )
 
@@ -98,7 +99,13 @@ func ExecuteWith(h Hooks, tweak func(*world.Config)) (out []BlockDigest, run *Ru
 	if h.Blocks > 0 {
 		n = h.Blocks
 	}
-	for i := 0; i < n; i++ {
+	out = run.blocks(sc, h, 0, n)
+	return out, run
+}
+
+// blocks executes block indices from..n-1 of the script.
+func (run *Run) blocks(sc *Script, h Hooks, from, n int) (out []BlockDigest) {
+	for i := from; i < n; i++ {
 		if h.BeforeBlock != nil {
 			h.BeforeBlock(i, run)
 		}
@@ -150,7 +157,65 @@ func ExecuteWith(h Hooks, tweak func(*world.Config)) (out []BlockDigest, run *Ru
 			break
 		}
 	}
-	return out, run
+	return out
+}
+
+// Snapshot is the durable state of a node between two blocks (its database) together with the
+// state of the outside world (the scripted relayers), from which a restarted node continues.
+type Snapshot struct {
+	At     int // the next block index
+	DB     *dbm.MemDB
+	Bytes  int
+	Cfg    world.Config
+	Height int64
+	Time   time.Time
+	script Script
+}
+
+// Snapshot copies the database; call it from BeforeBlock(i): the state before block index i.
+func (run *Run) Snapshot(i int) *Snapshot {
+	src, ok := run.Cfg.DB.(*dbm.MemDB)
+	if !ok {
+		panic("hist: snapshot needs a MemDB")
+	}
+	cp := dbm.NewMemDB()
+	it, err := src.Iterator(nil, nil)
+	if err != nil {
+		panic(err)
+	}
+	n := 0
+	for ; it.Valid(); it.Next() {
+		k, v := append([]byte{}, it.Key()...), append([]byte{}, it.Value()...)
+		if err := cp.Set(k, v); err != nil {
+			panic(err)
+		}
+		n += len(k) + len(v)
+	}
+	it.Close()
+	sn := &Snapshot{At: i, DB: cp, Bytes: n, Cfg: run.Cfg, Height: run.Height, Time: run.Time, script: *run.Script}
+	sn.script.proofs = map[string]*evmtypes.TxExecutedProof{}
+	for k, v := range run.Script.proofs {
+		sn.script.proofs[k] = v
+	}
+	return sn
+}
+
+// Resume starts a fresh application over the snapshot's database — a node that was stopped at that
+// block boundary and started again — and executes the rest of the history. The returned digests
+// start at block index s.At. A snapshot is used once (its database is written to).
+func Resume(s *Snapshot, h Hooks) (out []BlockDigest, run *Run) {
+	cfg := s.Cfg
+	cfg.DB = s.DB
+	cfg.Restart = true
+	w := world.New(cfg)
+	sc := s.script
+	sc.W = w
+	run = &Run{Cfg: cfg, W: w, Script: &sc, Height: s.Height, Time: s.Time}
+	n := sc.Blocks()
+	if h.Blocks > 0 {
+		n = h.Blocks
+	}
+	return run.blocks(&sc, h, s.At, n), run
 }
 
 func Digest(height int64, resp *abci.ResponseFinalizeBlock) BlockDigest {
